@@ -2,7 +2,12 @@
 
 package codex
 
-import "github.com/creack/pty"
+import (
+	"io"
+
+	"github.com/creack/pty"
+	"hop.computer/hop/tubes"
+)
 
 // VerifWireExecInitBytes = newExecInitMsg(...).ToBytes(); hasSize=false passes a nil *pty.Winsize.
 func VerifWireExecInitBytes(usePty bool, cmd, term string, hasSize bool, rows, cols, x, y uint16) []byte {
@@ -11,4 +16,23 @@ func VerifWireExecInitBytes(usePty bool, cmd, term string, hasSize bool, rows, c
 		size = &pty.Winsize{Rows: rows, Cols: cols, X: x, Y: y}
 	}
 	return newExecInitMsg(usePty, cmd, term, size).ToBytes()
+}
+
+// VerifWireGetStatus = getStatus(t): nil for a confirmation, otherwise an error carrying the text.
+func VerifWireGetStatus(t *tubes.Reliable) error { return getStatus(t) }
+
+// VerifWireSerializeSize = serializeSize into a fresh 8-byte buffer.
+func VerifWireSerializeSize(rows, cols, x, y uint16) []byte {
+	b := make([]byte, 8)
+	serializeSize(b, &pty.Winsize{Rows: rows, Cols: cols, X: x, Y: y})
+	return b
+}
+
+// VerifWireReadSize = readSize(r)
+func VerifWireReadSize(r io.Reader) (rows, cols, x, y uint16, err error) {
+	s, err := readSize(r)
+	if err != nil {
+		return 0, 0, 0, 0, err
+	}
+	return s.Rows, s.Cols, s.X, s.Y, nil
 }
